@@ -176,7 +176,7 @@ def run_family_check(ctx, prop, families, instances):
   cells = [c for c in grid(ctx) if c['family'] in families]
   if 'unseeded' in families:
     cells += unseeded_cells(ctx.quick)
-  jobs = [(c, i, prop) for c in cells for i in range(1 if c['family'] in ('pm1cover', 'lhwslow') else instances)]
+  jobs = [(c, i, prop) for c in cells for i in range(1 if c['family'] in ('pm1cover', 'lhwslow') else 2 if (c['family'] == 'unseeded' and instances > 2) else instances)]
   jobs += [(c, 0, prop, 'after-noise') for c in cells if c['family'] not in ('lhw', 'lhwslow', 'pm1cover')]
   if ctx.only_sid:
     jobs = [j for j in jobs if ctx.only_sid.startswith('%s-%s-%s-i%d' % (prop, j[0]['family'], cell_id(j[0]), j[1]))]
